@@ -570,7 +570,7 @@ func ruleChallenge(c *Ctx, rule string) {
 
 func ruleNonceValidators(c *Ctx, rule string) {
 	w := c.W
-	c.Rule(rule, "every implementation of NonceManager: Validate returns nil only (a) on the true edge of hmac.Equal(x, y) where one operand derives from the presented nonce and the other from an HMAC whose key is recv.key and whose input derives from the presented nonce; (b) under a comparison that depends both on time.Now and on the presented nonce (an expiry test)", 2)
+	c.Rule(rule, "every implementation of NonceManager: Validate returns nil only (a) on the true edge of hmac.Equal(x, y) where one operand derives from the presented nonce and the other from an HMAC whose key is recv.key and whose input derives from the presented nonce; (b) under a comparison of a constant with a value that depends both on time.Now and on the presented nonce (the age of the nonce is bounded by a constant lifetime)", 2)
 	iface := w.Named("server", "NonceManager")
 	it := iface.Underlying().(*types.Interface)
 	scope := w.tpkg("server").Scope()
@@ -651,10 +651,15 @@ func ruleNonceValidators(c *Ctx, rule string) {
 						}
 					}
 				}
-				// expiry: a comparison (any truth) whose operands depend on Now and on param
+				// expiry: the nonce's age is bounded by a constant: one side of the comparison is a
+				// constant (the lifetime), the other depends both on time.Now and on the presented
+				// nonce (now − stamp, time.Since(stamp), …). A mere ordering test between now and
+				// the stamp (rejecting future stamps) does not bound the age.
 				if f.Op == "<" {
-					if (dep(f.X, onNow) || dep(f.Y, onNow)) && (dep(f.X, onParam) || dep(f.Y, onParam)) {
-						okExp = true
+					for _, pair := range [][2]ssa.Value{{f.X, f.Y}, {f.Y, f.X}} {
+						if _, isK := pair[0].(*ssa.Const); isK && dep(pair[1], onNow) && dep(pair[1], onParam) {
+							okExp = true
+						}
 					}
 				}
 			}
